@@ -56,6 +56,16 @@ CHECKS = {
               "evaluate()."),
         design_ref='DESIGN.md section 7 / C04',
         technique='Coq proof (simultaneous induction with tand) + step-wise differential correspondence + counter-model search'),
+    'C10': dict(
+        text=("Machine-checked proof (Coq): for every operator, every literal release (any length; ~= with >= 2 segments) and every final "
+              "X.Y.Z, the diagram the model builds for `python_version OP V` evaluates to the direct PEP 440 reading of X.Y OP V "
+              "(zero-padded release comparison, prefix matching for .*, ~= as >= and prefix) outside the carve-out; in / not in lists "
+              "likewise; `not in` = negation of `in` and `!=` = negation of `==` as diagrams for all literals; the result is literally the "
+              "python_full_version expression with that meaning; PEP 440 zero padding coincides with the order used in diagrams. The model's "
+              "`expression` is extracted and compared with MarkerTree::expression on the typed expressions the crate produces for 7 operators x "
+              "24-80 literals x both operand orders, wildcards and lists; evaluate() is compared with an independent PEP 440 reading on an X.Y.Z grid."),
+        design_ref='DESIGN.md section 7 / C10',
+        technique='Coq proof (range semantics + case analysis of the rewrite, arithmetic by lia) + differential correspondence + grid oracle'),
 }
 
 PENDING = {}
